@@ -200,6 +200,11 @@ func c05Main(rc *RunCtx) {
 		if simrt.Choose(10) == 0 {
 			ans.Truncated = true
 		}
+		if simrt.Choose(12) == 0 {
+			// 12-bit rcodes (their low nibble looks like NOERROR / SERVFAIL / NXDOMAIN)
+			ans.Rcode = []int{16, 18, 19, 23, 32, 4095}[simrt.Choose(6)]
+			simrt.Fault("origin_extended_rcode")
+		}
 		v := &c05ver{V: c.nver, Key: key, Ans: ans.Copy(), At: simrt.S.Elapsed(), Step: simrt.S.Steps(), Epoch: c.epoch, Refresh: bg}
 		c.vers[v.V] = v
 		c.byKey[key] = append(c.byKey[key], v)
@@ -296,6 +301,17 @@ func c05Query(rc *RunCtx, c *c05cfg, cp *cacheplug.Cache, walker sequence.ChainW
 		simrt.Probe("c05.no_answer")
 		return
 	}
+	// What the server does with the response it got back, in place, after the cache
+	// is done with it (UDP truncation): must not reach the cache's own copy. The
+	// checks below work on a snapshot taken first.
+	snap := r.Copy()
+	if simrt.Choose(3) == 0 && len(r.Answer) > 1 {
+		r.Truncated = true
+		r.Answer = r.Answer[:len(r.Answer)/2]
+		r.Ns, r.Extra = nil, nil
+		simrt.Fault("server_truncates_response_in_place")
+	}
+	r = snap
 	v, ok := c05Version(r)
 	if !ok {
 		// an answer without our marker: either the record-less origin answer passed through (miss) or garbage from cache
@@ -326,6 +342,10 @@ func c05Query(rc *RunCtx, c *c05cfg, cp *cacheplug.Cache, walker sequence.ChainW
 	}
 	// ---- served from cache ----
 	simrt.Probe("c05.hit")
+	if r.Truncated && !ver.Ans.Truncated {
+		rc.Fail("truncated_answer_served_from_cache", "key k%d version %d: the cache served an answer with TC set (%d answer records; the stored answer had %d and no TC)", key, v, len(r.Answer), len(ver.Ans.Answer))
+		return
+	}
 	now := simrt.S.Elapsed()
 	if now != t0 {
 		// the query spanned virtual time (a slow concurrent origin); the hit
